@@ -1183,6 +1183,34 @@ def fixed_cases(quick=True):
                         'entries': [{'kind': 'tile', 'dim': 0, 'l': 8, 'x': x, 'y': y, 't': T - 40}
                                     for x, y in sorted(set(inside + decoys))] +
                                    [{'kind': 'tile', 'dim': 0, 'l': 7, 'x': 63, 'y': 63, 't': T - 40}]})
+    # tile walk with remove_before: the batch handed to remove_tiles holds only the stale tiles of a meta tile, i.e. an
+    # arbitrary subset of the block (not a rectangle, not contiguous).  Meta tiles whose expired and newer tiles are
+    # interleaved: checkerboard / the two opposite corners only / every other tile of one row and of one column; a
+    # second meta tile inside the coverage that is entirely newer, one outside the coverage that is entirely expired.
+    blk = [(x, y) for x in range(4) for y in range(4)]
+    patterns = [('checker', set(p for p in blk if (p[0] + p[1]) % 2 == 0)),
+                ('corners', set([(0, 0), (3, 3)])),
+                ('comb', set([(0, 1), (2, 1), (1, 0), (1, 2), (3, 3)]))]
+    walk_backends = ['sqlite', 'mbtiles:ts', 'file:tc', 'file:quadkey'] + \
+                    ([] if quick else ['file:mp', 'file:tms', 'file:reverse_tms', 'file:arcgis'])
+    for b in walk_backends:
+        for name, stale in patterns:
+            for meta, grid, lvl, cov in (([4, 4], 'g4w', 3, [64, 64, 960, 448]), ([2, 2], 'g3', 2, [128, 128, 896, 896])):
+                if meta == [2, 2] and name != 'checker':
+                    continue
+                if b == 'file:quadkey' and grid != 'g3':
+                    continue
+                span = 128 if grid == 'g4w' else 256
+                pts = blk if meta == [4, 4] else [(x, y) for x in range(4) for y in range(4)]
+                ents = [{'kind': 'tile', 'dim': 0, 'l': lvl, 'x': x, 'y': y, 't': T - 40 if (x, y) in stale else T + 40}
+                        for x, y in pts]
+                if meta == [4, 4]:
+                    ents += [{'kind': 'tile', 'dim': 0, 'l': lvl, 'x': 4 + x, 'y': y, 't': T + 40} for x, y in ((0, 0), (3, 3), (1, 2))]
+                    ents += [{'kind': 'tile', 'dim': 0, 'l': lvl, 'x': 8 + x, 'y': 4 + y, 't': T - 40} for x, y in ((0, 0), (3, 3), (1, 2))]
+                ents.append({'kind': 'tile', 'dim': 0, 'l': lvl - 1, 'x': 0, 'y': 0, 't': T - 40})
+                out.append({'backend': b, 'grid': grid, 'meta': meta, 'guarded': True, 'concurrency': 1,
+                            'task': {'levels': [lvl], 'T': T, 'all': False, 'complete': False, 'cov': cov},
+                            'entries': ents})
     # a newer tile in a directory that is older than the remove time
     for b in ('file:tc', 'file:tms'):
         out.append({'backend': b, 'grid': 'g3', 'meta': [2, 2], 'guarded': True, 'concurrency': 1, 'dir_t': T - 400,
